@@ -54,6 +54,10 @@ func TestHunt(t *testing.T) {
 						if ti.Attempts >= 33 {
 							events = []string{"long-run-33plus"}
 						}
+						if ti.Attempts >= 37 {
+							// the mask nonce of attempt a is 7a..7a+6: from the 37th attempt on it needs its second byte
+							events = []string{"long-run-37plus-nonce-two-bytes"}
+						}
 						if ti.Attempts >= 45 {
 							events = []string{"long-run-45plus"}
 						}
